@@ -364,12 +364,25 @@ Proof.
     exists (mkM l' false). split; [exact X|]. split; [reflexivity|]. split.
     + intros O. unfold is_owner in O. cbn in O. rewrite (NoOwner Na) in O. discriminate.
     + intros d C. cbn in C. exfalso. apply (Tok d C).
-  - (* GCancel *)
+  - (* GCancel: the monitor forgets what the thread had read; nothing is needed at the program points a callout is at *)
+    destruct Tok as [TokC TokO].
     destruct (released (fl (g_s g))); [discriminate|].
-    match type of H with (if ?c then _ else _) = _ => destruct c end; [discriminate|]. injection H as <- <-.
-    exists (mkM ml false). split; [reflexivity|]. apply Same; reflexivity.
-  - destruct (released (fl (g_s g))); [discriminate|]. injection H as <- <-.
-    exists (mkM ml false). split; [reflexivity|]. apply Same; reflexivity.
+    match type of H with (if negb ?c then _ else _) = _ => destruct c eqn:Al end; [|discriminate]. cbn [negb] in H.
+    injection H as <- <-.
+    exists (mkM None false). split; [reflexivity|]. split; [reflexivity|]. split.
+    + intros O. change (is_owner g t = true) in O. change (prel (o_pc g) (o_dqf g) (mkM None false)).
+      match goal with x : cctx |- _ => destruct x end.
+      * rewrite (TokO ltac:(discriminate)) in O. discriminate.
+      * apply andb_prop in Al as [_ Al]. unfold prel. cbn [m_wake m_last]. split; [reflexivity|].
+        destruct (o_pc g); try discriminate; split; intros X; discriminate.
+      * rewrite (TokO ltac:(discriminate)) in O. discriminate.
+    + intros d C. exfalso. apply (TokC d C).
+  - (* GRelease *)
+    destruct Tok as [TokC TokO].
+    destruct (released (fl (g_s g))); [discriminate|]. injection H as <- <-.
+    exists (mkM None false). split; [reflexivity|]. split; [reflexivity|]. split.
+    + intros O. change (is_owner g t = true) in O. rewrite TokO in O. discriminate.
+    + intros d C. exfalso. apply (TokC d C).
   - destruct (released (fl (g_s g))); [discriminate|]. injection H as <- <-.
     exists (mkM ml false). split; [reflexivity|]. apply Same; reflexivity.
   - match type of H with (if ?c then _ else _) = _ => destruct c end; [|discriminate]. injection H as <- <-.
